@@ -472,6 +472,12 @@ structure HeapFacts where
   writes : List ForeignWrite
   /-- functions that return a function literal (handler / option / issuer factories) -/
   factories : List String
+  /-- (deep round 4) every call of a tracked mutator method AFTER package initialisation: (calling function, line, bare method
+      name, origins of the receiver: `fresh` = made by this very expression / function, `global:<cell>`, `param:<i>`, `recv`,
+      `foreign:…`).  Calls inside the initialiser expression of a package-level variable are not in this list. -/
+  mutCalls : List (String × Nat × String × List String) := []
+  /-- the mutator methods every call site of which is listed in `mutCalls`: (name as a writer in `writes`, bare name) -/
+  tracked : List (String × String) := []
 
 def SharedCell.writable (c : SharedCell) : Bool := c.kind == "ptr" || c.kind == "slice" || c.kind == "map"
 
@@ -480,15 +486,62 @@ def HeapFacts.kindOf (H : HeapFacts) (g : String) : String :=
   | some c => c.kind
   | none => ""
 
+/-- may a receiver with origin `o` BE the package-level cell `g`?  `fresh` never; `global:<g'>` only when `g' = g`; any other
+    origin (a parameter / receiver handed through, an errors.As target, the result of an unresolved call) may be any object -/
+def originMayBe (g o : String) : Bool :=
+  if o == "fresh" then false
+  else if "global:".toList.isPrefixOf o.toList then o.toList == "global:".toList ++ g.toList
+  else true
+
+/-- the tracked mutator method whose receiver write `w` is (bare name) -/
+def HeapFacts.mutatorOf (H : HeapFacts) (w : ForeignWrite) : Option String :=
+  if w.via == "recv" then (H.tracked.find? fun t => t.1 == w.fn).map Prod.snd else none
+
+/-- calls of method `m` (after initialisation) whose receiver may be the package-level cell `g` -/
+def HeapFacts.callsOn (H : HeapFacts) (m g : String) : List (String × Nat × String × List String) :=
+  H.mutCalls.filter fun k => k.2.2.1 == m && k.2.2.2.any (originMayBe g)
+
+/-- (deep round 4) the refined may-alias rule.  A write into an object the writer did not create may hit the package-level pointer
+    cell `c` of the same pointee type — EXCEPT when it is the receiver write of a tracked mutator method (`WithDescription`, …):
+    that write happens exactly when the method is called, every call site is listed with the origins of its receiver, so it can
+    hit `c` only if some listed call has a receiver that may be `c`.  (`var errX = oidc.ErrY().WithDescription(…)`: the call in the
+    initialiser runs once at package initialisation and is not listed.) -/
+def writeMayHit (H : HeapFacts) (w : ForeignWrite) (c : SharedCell) : Bool :=
+  match H.mutatorOf w with
+  | none => true
+  | some m => !(H.callsOn m c.name).isEmpty
+
 /-- may-alias by type: a foreign write of pointee type `T` may hit every package-level POINTER cell whose pointee type is
-    `T` (error values travel through `error` interfaces, function-typed variables and `errors.As`) -/
+    `T` (error values travel through `error` interfaces, function-typed variables and `errors.As`), refined by `writeMayHit` -/
 def heapHits (H : HeapFacts) : List (String × Cell) :=
   H.writes.flatMap fun w =>
+    (H.cells.filter fun c => c.kind == "ptr" && c.ty != "" && c.ty == w.ty && writeMayHit H w c).map fun c => (w.fn, Cell.global c.name w.path)
+
+/-- the type-only rule of round 3 (kept for comparison: what the refinement removes) -/
+def heapHitsByType (H : HeapFacts) : List (String × Cell) :=
+  H.writes.flatMap fun w =>
     (H.cells.filter fun c => c.kind == "ptr" && c.ty != "" && c.ty == w.ty).map fun c => (w.fn, Cell.global c.name w.path)
+
+/-- a pointee type is a SENTINEL type when the only writes into objects of that type which the writer did not create are the
+    receiver writes of tracked mutator methods: nobody writes such an object through a parameter, an errors.As target or a call
+    result, so a package-level pointer to it is written iff a mutator is called on it (or a field is assigned directly: a write
+    site with a `.global` root) -/
+def HeapFacts.sentinelType (H : HeapFacts) (ty : String) : Bool :=
+  ty != "" && H.writes.all fun w => w.ty != ty || (H.mutatorOf w).isSome
+
+def HeapFacts.tyOf (H : HeapFacts) (g : String) : String :=
+  match H.cells.find? fun c => c.name == g with
+  | some c => c.ty
+  | none => ""
 
 /-- results that are a package-level cell one can write through -/
 def handedOutWritable (H : HeapFacts) : List (String × String) :=
   (H.handsOut.filter fun h => (H.kindOf h.2.2 == "ptr" || H.kindOf h.2.2 == "slice" || H.kindOf h.2.2 == "map")).map fun h => (h.1, h.2.2)
+
+/-- handed-out cells that need an audit: slices / maps, and pointers to anything but a sentinel type (a package-level
+    `*oidc.Error` returned as an error is the standard Go idiom and harmless as long as `heapHits` finds no write into it) -/
+def handedOutAudit (H : HeapFacts) : List (String × String) :=
+  (handedOutWritable H).filter fun h => !(H.kindOf h.2 == "ptr" && H.sentinelType (H.tyOf h.2))
 
 def Root.isCaptured : Root → Bool
   | .captured .. => true
